@@ -45,6 +45,7 @@ def scale_scenario(ctx, job, oracles, name_prefix=''):
         if chunks_to > chunks_from:
             r = h.step('auto_add_nodes', lambda: b.op('auto_add_nodes', RStr('c1'), 4 * (chunks_to - chunks_from)))
             assert r.variant == 0, r
+            b.mark_initial()    # native replay starts after allocation (std HashMap order is random natively)
             r = h.step('migrate_slots', lambda: b.op('migrate_slots', RStr('c1')))
             assert r.variant == 0, r
         else:
